@@ -760,7 +760,7 @@ void exhaustive()
   if (vf::entry_enabled(e))
   {
     vf::set_entry(e);
-    // quick: every row of N=1; every `stride`-th row of N=2 starting at a seed dependent offset
+    // every row in both tiers (stride is kept as the knob should the quick tier ever need sampling)
     std::size_t const stride = N == 2 ? vf::tier<std::size_t>(1, 1) : 1;
     std::size_t const start = static_cast<std::size_t>(vf::hash_mix(vf::opts().seed, vf::hash_str(e)) % stride);
     std::size_t row = 0;
